@@ -85,10 +85,10 @@ pub mod wal {
             self.0.as_mut().expect("wal taken")
         }
 
-        /// (usable bytes of a data block, block size)
-        pub fn caps(&mut self) -> (usize, usize) {
+        /// (free bytes of block zero right now, usable bytes of a data block, block size)
+        pub fn caps(&mut self) -> (usize, usize, usize) {
             let w = self.inner();
-            (w.max_record_size(), w.stats().block_size)
+            (w.verif_block_zero_space(), w.max_record_size(), w.stats().block_size)
         }
 
         /// Size a record with these payloads occupies in a block.
